@@ -137,6 +137,8 @@ class UpdaterSystem:
     def fresh(self):
         st = St()
         st.host = Host()
+        if getattr(self, "f64", False):
+            st.host = st.host.to(torch.float64)
         rfn = REDUCTIONS[self.red][0]
         if self.red_how == "ctor" and rfn is not None:
             st.host.updater = Updater(st.host, "p", "q", reduction=rfn)
@@ -238,7 +240,12 @@ class UpdaterSystem:
                 scale = 1.0 if prm == "p" else 0.5
                 pos = [v * scale for v in pos]
                 neg = [v * scale for v in neg]
-                tp, tn = torch.tensor(pos), torch.tensor(neg)
+                if getattr(self, "f64", False):
+                    pos = [v + 2.0 ** -30 for v in pos]
+                    neg = [v + 2.0 ** -30 for v in neg]
+                    tp, tn = torch.tensor(pos, dtype=torch.float64), torch.tensor(neg, dtype=torch.float64)
+                else:
+                    tp, tn = torch.tensor(pos), torch.tensor(neg)
                 if kind == "pos":
                     setattr(upd, prm, (tp, None))
                     st.pos[prm].append(pos)
@@ -319,9 +326,13 @@ class UpdaterSystem:
         return (tuple(st.val["p"]), tuple(st.val["q"]), ms(st.pos["p"]), ms(st.neg["p"]), ms(st.pos["q"]), ms(st.neg["q"]))
 
 
-def algebra_shard(red, red_how, form, ukind, lkind, depth, max_states):
+def algebra_shard(red, red_how, form, ukind, lkind, depth, max_states, f64=False):
+    """f64: the host is converted with .to(float64) and every contributed part carries a 2**-30 term that float32 cannot hold:
+    parts, reductions and the applied update stay in float64 (compared exactly)"""
     tally = Tally()
     sysm = UpdaterSystem(red, red_how, form, ukind, lkind)
+    sysm.f64 = f64
+    sysm.config["float64"] = f64
     try:
         sysm.fresh()
     except Exception as ex:
@@ -447,6 +458,8 @@ def run(rep):
     cfgs += [("default", "none", "half-rev", "mult", "mult"), ("default", "none", "half-rev", "sharp", "smult"), ("mean", "ctor", "half-rev", "spower", "mult")]
     for c in cfgs:
         jobs.append((algebra_shard, (*c, depth, cap)))
+    for c in (("default", "none", None, None, None), ("amax", "ctor", None, None, None), ("default", "none", "half", "mult", "mult"), ("default", "none", "full", "sharp", "sharp")):
+        jobs.append((algebra_shard, (*c, depth - 1, cap, True)))  # float64 host and parts
     for form in ("half", "full"):
         for kind, orders in (("mult", (1.0,)), ("smult", (1.0,)), ("spower", (1.0, 1.5, 2.0, 3.0)), ("sharp", (1.0,))):
             for order in orders:
